@@ -33,6 +33,12 @@ class SendCommand(Contract):
     }
 
 
+def chunks_frame(g, old):
+    """at least one exchange; earlier log entries untouched; no (dis)connection"""
+    return (g.nx >= old.g.nx + 1 and prefix_of(old.g.log, g.log) and len(g.log) == len(old.g.log) + (g.nx - old.g.nx)
+            and g.conn == old.g.conn and g.disc == old.g.disc)
+
+
 def key_of(command, operation):
     return command * 256 + operation
 
@@ -55,16 +61,19 @@ class SendDataInChunks(Contract):
     def inv_stream(command, operation, data, offset, g, old):
         k = key_of(command, operation)
         return (0 <= offset and offset <= len(data)
-                and g.stream == upd(old.g.stream, k, sel(old.g.stream, k) + data[0:offset])
-                and len(g.log) >= len(old.g.log))
+                and g.stream == upd(old.g.stream, k, sel(old.g.stream, k) + data[0:offset]))
+    def inv_frame(g, old, finished):
+        return (g.nx >= old.g.nx and prefix_of(old.g.log, g.log) and len(g.log) == len(old.g.log) + (g.nx - old.g.nx)
+                and g.conn == old.g.conn and g.disc == old.g.disc and implies(finished, g.nx >= old.g.nx + 1))
     def inv_counters(offset, total_bytes_sent, bytes_requested):
         return total_bytes_sent == offset and 0 <= bytes_requested and bytes_requested <= 255
     def inv_finished(finished, response, operation, next_operations, expect_full_data, total_bytes_sent, data,
                      command, g):
         return implies(finished, response[2] != operation and response[2] in next_operations
                        and implies(expect_full_data, total_bytes_sent >= len(data))
-                       and classify(g) == K_OK and response == g.last_resp and len(response) >= 3)
-    invariants = {0: [inv_stream, inv_counters, inv_finished]}
+                       and classify(g) == K_OK and response == g.last_resp and len(response) >= 3
+                       and implies(chunk_op(command, response[2]), len(response) >= 4))
+    invariants = {0: [inv_stream, inv_frame, inv_counters, inv_finished]}
 
     # every APDU carries the chunk the device asked for: at most bytes_requested bytes, taken at `offset`
     def chunk_is_what_was_requested(arg_data, operation, data, offset, bytes_requested):
@@ -85,6 +94,7 @@ class SendDataInChunks(Contract):
         return implies(result[0],
                        result[1][2] != operation and result[1][2] in next_operations
                        and len(result[1]) >= 3 and result[1] == g.last_resp and classify(g) == K_OK
+                       and implies(chunk_op(command, result[1][2]), len(result[1]) >= 4)
                        and implies(expect_full_data, sel(g.stream, k) == sel(old.g.stream, k) + data))
     def post_failure(result, operation, next_operations, expect_full_data, g, old, command, data):
         k = key_of(command, operation)
@@ -93,15 +103,16 @@ class SendDataInChunks(Contract):
                        (not (result[1][2] == operation or result[1][2] in next_operations)
                         or (expect_full_data and
                             len(sel(g.stream, k)) - len(sel(old.g.stream, k)) < len(data))))
-    def post_at_least_one_exchange(g, old): return g.nx >= old.g.nx + 1
-    ensures = [post_prefix, post_success, post_failure]
+    def post_frame(g, old): return chunks_frame(g, old)
+    ensures = [post_prefix, post_success, post_failure, post_frame]
 
     # exceptions of _send_command propagate unchanged (nothing caught, nothing added)
     def x_prefix(command, operation, data, g, old):
         k = key_of(command, operation)
         n = len(sel(g.stream, k)) - len(sel(old.g.stream, k))
         return (0 <= n and n <= len(data)
-                and g.stream == upd(old.g.stream, k, sel(old.g.stream, k) + data[0:n]))
+                and g.stream == upd(old.g.stream, k, sel(old.g.stream, k) + data[0:n])
+                and chunks_frame(g, old))
     def x_err(exc, g): return classify(g) == K_ERR and exc.args[0] == g.last_sw
     def x_timeout(g): return classify(g) == K_TIMEOUT
     def x_comm(g): return classify(g) == K_COMM
